@@ -5,19 +5,19 @@ CFG = dict(
     id="C17", tie="Tie.C17", n_quick=1500, n_thorough=12000, thorough_seeds=3,
     rule="each case = a fresh singleapp file or multiapp directory in a temp dir, 30-55 random operations "
          "(Append / ReadAt / SetOffset / Flush / Sync / Size / Offset / DiscardUpto / SwitchToReadOnlyMode / Close / "
-         "reopen with new options incl. read-only / Metadata, also on a closed appendable) and EVERY output; options: "
+         "reopen with new options incl. read-only / Metadata / Copy (the copy is opened read-only and read completely), also on a closed appendable) and EVERY output; options: "
          "write buffer 1..16, chunk size 1..16 (appends spanning several chunks), flush-when-full / retryableSync+autoSync / "
          "retryableSync with ErrBufferFull, preallocation on and off, maxOpenedFiles 1..3 (eviction stream, rewinds kept "
          "inside the current chunk) or 1000; offsets and lengths drawn from 0, 1, size-1, size, size+1, size+2, last flushed "
          "size +-1, last append/rewind offset, multiples of the buffer size +-1, multiples of the chunk size +-1, distance to "
-         "the chunk end +-1; 12 directed scenarios (the defects found so far, repaired ones included) run first. A case is non-trivial when it has a "
+         "the chunk end +-1; 15 directed scenarios (the defects found so far, repaired ones included) run first. A case is non-trivial when it has a "
          "successful Append, a ReadAt that returned >= 1 byte and (a successful rewind below the size, or a reopen, or data "
          "in >= 2 chunks); distinct by (options, operations, outputs)",
     trusted_base=COMMON_TB + [
         "modelled (coq/App/Single.v, Multi.v): AppendableFile Open/Append/write/flush/sync/SetOffset/readAt/ReadAt/Size/"
-        "Offset/DiscardUpto/SwitchToReadOnlyMode/Close/Metadata with NoCompression; MultiFileAppendable Open/Append with "
-        "chunk rotation/appendableFor/ReadAt/SetOffset/DiscardUpto/Size/Offset/Flush/Sync/SwitchToReadOnlyMode/Close/Metadata. "
-        "NOT modelled: compression formats, Copy, failing OS calls (write/seek/fsync errors, so retryableSync only changes when "
+        "Offset/DiscardUpto/SwitchToReadOnlyMode/Close/Metadata/Copy with NoCompression; MultiFileAppendable Open/Append with "
+        "chunk rotation/appendableFor/ReadAt/SetOffset/DiscardUpto/Size/Offset/Flush/Sync/SwitchToReadOnlyMode/Close/Metadata/Copy. "
+        "NOT modelled: compression formats, failing OS calls (write/seek/fsync errors, so retryableSync only changes when "
         "the buffer is released), negative offsets, the SIEVE eviction of the multiapp handle cache (model keeps every handle; "
         "the eviction stream of the harness checks that eviction changes no output when rewinds stay in the current chunk), "
         "background prefetch (default off), remote appendables, concurrent readers",
